@@ -117,7 +117,9 @@ func (c *controlConn) heartBeat() {
 		case error:
 			goto reconn
 		default:
-			panic(fmt.Sprintf("gocql: unknown frame in response to options: %T", resp))
+			// a frame that does not answer OPTIONS: treat the connection as broken,
+			// a peer must not be able to take the process down with it
+			goto reconn
 		}
 
 	reconn:
